@@ -64,4 +64,86 @@ Section Cli.
   Definition cli (c : ctx) (file : option Code) (exprs : option (list Code)) : cli_result :=
     run_inputs c (code_and_source file exprs) [].
 
+  (* ------------------------------------------------------------------ *)
+  (* Phase 2: the arguments that decide WHAT is evaluated (Cli::new, initialize_context,
+     enter_repl), and the non-interactive REPL that follows with --inspect-interactively or
+     when neither a file nor -e is given (stdin is not a terminal: ExecutionMode::Normal). *)
+  Record config : Type := mkCfg { load_prelude : bool; load_user_init : bool; inspect : bool }.
+
+  (* Cli::new: config.load_prelude &= !no_prelude; config.load_user_init &= !(no_prelude || no_init) *)
+  Definition config_of_args (no_prelude no_init inspect_interactively : bool) : config :=
+    mkCfg (negb no_prelude) (negb (no_prelude || no_init)) inspect_interactively.
+
+  Variable prelude_code : Code.                  (* "use prelude", CodeSource::Internal *)
+  Variable msg_prelude msg_init stopped_repl : Out.
+  Variable is_blank is_quit : Code -> bool.      (* line.trim().is_empty(); the `quit` / `exit` commands *)
+
+  Definition is_none {X} (o : option X) : bool := match o with None => true | Some _ => false end.
+
+  (* Cli::repl_loop on a non-terminal stdin; REPL commands other than quit/exit are outside the model *)
+  Fixpoint repl (c : ctx) (lines : list Code) (out : list Out) : cli_result :=
+    match lines with
+    | [] => mkCli 0 out []                                   (* ReadlineError::Eof *)
+    | l :: rest =>
+        if is_blank l then repl c rest out
+        else if is_quit l then mkCli 0 out []
+        else match interpret c l CSText with
+             | (c1, Done _ _ _ _ _ _ v prints) => repl c1 rest (out ++ map show_print prints ++ show_value v)
+             | (_, Fail _ _ _ _ _ _ f _) => mkCli 1 out [show_diag f; stopped_repl]
+             end
+    end.
+
+  (* the input loop followed by whatever comes next (the REPL or nothing) *)
+  Fixpoint run_inputs_k (c : ctx) (inputs : list (Code * code_source M)) (out : list Out)
+           (k : ctx -> list Out -> cli_result) : cli_result :=
+    match inputs with
+    | [] => k c out
+    | (code, cs) :: rest =>
+        match interpret c code cs with
+        | (c1, Done _ _ _ _ _ _ v prints) =>
+            run_inputs_k c1 rest (out ++ map show_print prints ++ show_value v) k
+        | (_, Fail _ _ _ _ _ _ f _) => mkCli 1 out [show_diag f; stopped]
+        end
+    end.
+
+  (* Cli::run with initialize_context *)
+  Definition cli_full (cfg : config) (c : ctx) (init_file : option Code)
+             (file : option Code) (exprs : option (list Code)) (stdin : list Code) : cli_result :=
+    let after_init (c2 : ctx) (out : list Out) : cli_result :=
+        let enter_repl := (is_none file && is_none exprs) || inspect cfg in
+        run_inputs_k c2 (code_and_source file exprs) out
+                     (fun c3 out3 => if enter_repl then repl c3 stdin out3 else mkCli 0 out3 []) in
+    let after_prelude (c1 : ctx) (out : list Out) : cli_result :=
+        match (if load_user_init cfg then init_file else None) with
+        | None => after_init c1 out
+        | Some code =>
+            match interpret c1 code CSFile with
+            | (c2, Done _ _ _ _ _ _ v prints) => after_init c2 (out ++ map show_print prints ++ show_value v)
+            | (_, Fail _ _ _ _ _ _ f _) => mkCli 1 out [show_diag f; msg_init]
+            end
+        end in
+    if load_prelude cfg then
+      match interpret c prelude_code CSInternal with
+      | (c1, Done _ _ _ _ _ _ v prints) => after_prelude c1 (map show_print prints ++ show_value v)
+      | (_, Fail _ _ _ _ _ _ f _) => mkCli 1 [] [show_diag f; msg_prelude]
+      end
+    else after_prelude c [].
+
+  (* everything cli_full evaluates, in order, as one list of inputs *)
+  Fixpoint effective_lines (lines : list Code) : list Code :=
+    match lines with
+    | [] => []
+    | l :: rest => if is_blank l then effective_lines rest
+                   else if is_quit l then [] else l :: effective_lines rest
+    end.
+
+  Definition stage_inputs (cfg : config) (init_file : option Code) (file : option Code)
+             (exprs : option (list Code)) (stdin : list Code) : list (Code * code_source M) :=
+    (if load_prelude cfg then [(prelude_code, CSInternal)] else [])
+      ++ (match (if load_user_init cfg then init_file else None) with
+          | Some code => [(code, CSFile)] | None => [] end)
+      ++ code_and_source file exprs
+      ++ (if (is_none file && is_none exprs) || inspect cfg
+          then map (fun l => (l, CSText)) (effective_lines stdin) else []).
+
 End Cli.
